@@ -488,6 +488,8 @@ func harnessIntrinsic(fn *ssa.Function) intrinsicFn {
 			t, ok := a[0].(*Term)
 			return in.tb.Bool(ok && t.IsConst())
 		}
+	case "vRealModel":
+		return func(in *Interp, fn *ssa.Function, a []Value) Value { return in.tb.Bool(!in.tb.fmode) }
 	case "vSymbolic":
 		return func(in *Interp, fn *ssa.Function, a []Value) Value { return in.tb.tru }
 	case "vDisjoint":
